@@ -72,6 +72,11 @@ def _oneshot_multi(p):
         return (p.name(), p.cpu_times(), p.uids(), p.memory_full_info(), p.num_threads(), p.ppid())
 
 
+# operations whose answer on the static fixture is a single figure/record (no partial lists, no substitution policy)
+EXACT_UNDER_FAULT = {"name", "status", "username", "create_time", "nice_get", "uids", "gids", "terminal", "num_fds", "io_counters",
+                     "ionice_get", "rlimit_get", "cpu_affinity_get", "cpu_num", "environ", "num_ctx_switches", "num_threads",
+                     "cpu_times", "memory_info", "memory_full_info", "memory_percent", "memory_percent_uss", "ppid", "cmdline",
+                     "cwd", "oneshot_multi"}
 NON_RAISING_AFTER_GONE = {"is_running", "wait0", "children", "children_rec", "repr", "process_iter_attrs"}
 TREE_OPS = {"children", "children_rec", "parent", "parents", "process_iter_attrs", "as_dict"}
 
@@ -264,6 +269,13 @@ def judge(opname, fixture, plan, out, pid, clean_value, acc):
         acc.count("values_returned_under_fault")
         if clean_value is not None and not shape_compatible(val, clean_value):
             viols.append((f"malformed_value:{opname}", desc + f" clean={str(clean_value)[:120]}"))
+        elif (clean_value is not None and opname in EXACT_UNDER_FAULT and fired_actions and own_targets
+              and all(a in ("EACCES", "EPERM", "vanish") for a in fired_actions)):
+            # a fault that is survived (documented fall-back, or it struck after the data was read) must not change
+            # the answer: the fixture is static, every source of one figure agrees with the others
+            acc.count("values_compared_with_clean_answer")
+            if repr(val) != repr(clean_value):
+                viols.append((f"value_changed_by_survived_fault:{opname}", desc + f" clean={str(clean_value)[:200]}"))
     for name, res, naccess in out.get("post", []):
         acc.count("post_gone_calls")
         rk, rv = res
